@@ -50,28 +50,34 @@ TECHNIQUE = {
            '; frozen guard table for buffer initialisation and output validation',
     'C02': 'static provenance and effect analysis over the call graph (seed dataflow, ambient '
            'RNG/clock reachability, ordered-iteration check)'
-           '; frozen guard table for the choice of the batch generator',
+           '; frozen guard table for the choice of the batch generator'
+           '; role-classified sweep of every read of max_parallel_batches / num_cores',
     'C03': 'static table agreement between compiler and loader, guard dominance, pairing of '
            'output/operation stores on all CFG paths'
            '; execute() dispatch (operation runs exactly under `operation in node`, value stored, operation dropped), execution order = filtered topological order under a complete cache key; frozen guard table for compilers and loaders (which side of which test adds an instruction node, edge or value)',
     'C04': 'static ordering and ownership analysis (FIFO pop, cancel-before-replan dominance, '
-           'who-may-remove pending ids, schedule-taint of the objective)',
+           'who-may-remove pending ids, schedule-taint of the objective)'
+           '; role-classified sweep of every read of max_parallel_batches / num_cores; proposal draw followed into helpers (one draw of batch_size per batch)',
     'C05': 'static pairing / guard analysis of the pool loader, callback ownership and refusal '
            'guards'
-           '; frozen guard table for the pool (serve / write / create store)',
+           '; frozen guard table for the pool (serve / write / create store)'
+           '; sibling cross-check of the two pool-naming sites (existing path refused on every path after naming)',
     'C06': 'path-sensitive abstract interpretation of file effects over the CFG of every '
            'NpyArray method (header/shape/disk relation automaton), who-may-touch-the-file scan'
-           '; frozen guard table for the array state machine with the definitions of its state predicates',
+           '; frozen guard table for the array state machine with the definitions of its state predicates'
+           '; feasibility-filtered CFG paths to every store through the memory map (header write + flush first)',
     'C07': 'static polarity (sign lattice) of weight dependence, argument binding and ordering '
            'over the CFG'
-           '; adaptive-threshold SMC round state machine (guard facts and ordering)',
+           '; adaptive-threshold SMC round state machine (guard facts and ordering)'
+           '; dtype-inheritance sweep over the sampler modules',
     'C08': 'static table agreement (pdf/mul, logpdf/add), domain agreement of product and '
            'override sets, column-order dataflow'
            "; package sweep for returned result buffers that inherit the dtype of a caller's array",
     'C09': 'static RNG provenance, guard dominance, polarity of the acceptance ratio, linear '
            'index forms of allocation and warm-up slice, pairing of NUTS tree ends with the '
            'state they update, formula-shape patterns for leapfrog and slice'
-           '; NUTS selection conditions, ordering of the eligible counts against the draws that read them, boolean structure of the validity flags',
+           '; NUTS selection conditions, ordering of the eligible counts against the draws that read them, boolean structure of the validity flags'
+           '; dtype-inheritance sweep over the kernel module',
     'C10': 'static argument-role/unit typestate for norm.logcdf, cache-field table agreement, '
            'comparison roles of the bounds test, sibling agreement of fast and regular path on '
            '`noiseless`, syntax-directed symbolic differentiation with exact rational-function '
@@ -82,15 +88,18 @@ TECHNIQUE = {
            'evaluate_gradient, syntax-directed symbolic differentiation (exp, log, sqrt, normal '
            'cdf, Owen T) with exact normal forms for the closed-form acquisition gradients'
            '; control-flow rules of the optimisation loop (prior phase exactly t < 0, base refusal honoured, batch returned, optimisation recorded when it ran), zero-variance column skipped'
-           '; definitions of the predicates the submission gate reads',
+           '; definitions of the predicates the submission gate reads'
+           '; objective / gradient pairing at every call of the optimiser wrapper (closures and wrappers resolved over value terms); dtype-inheritance sweep',
     'C12': 'static dataflow of distance arguments, append-only history ownership, unit '
            'typestate of the adaptive scale, def-use ordering of the Welford update, abstract '
            'interpretation of the straight-line update over sample-sum normal forms (inductive '
            'invariant of the batched moment recurrence, decided exactly)'
-           '; forwarding of every popped metric argument guarded by presence only; key-test polarity of the re-sort',
+           '; forwarding of every popped metric argument guarded by presence only; key-test polarity of the re-sort'
+           '; absolute-tolerance sweep; dtype-inheritance sweep',
     'C13': 'static comparison-role, uniform-permutation and lock-step counter analysis; exact '
            'normal forms over sample sums for the variance / ESS formulas (no evaluation)'
-           '; defaults substituted only under `is None`, every exit returns the accumulated value (CFG fall-through check), pinned last cumulative weight',
+           '; defaults substituted only under `is None`, every exit returns the accumulated value (CFG fall-through check), pinned last cumulative weight'
+           '; absolute-tolerance sweep; dtype-inheritance sweep',
     'C14': 'static ownership-after-copy analysis, snapshot-before-mutation ordering, guard '
            'dominance for the acyclicity check'
            '; rebinding (not in-place) observed setter that copy() relies on, setter loop without early exit, flag typestate of the observed-data move, reference fields after become()',
@@ -100,23 +109,28 @@ TECHNIQUE = {
     'C16': 'static column-order dataflow, uniform weight argument, slice/axis forms, '
            'getstate/setstate tuple agreement, exact normal forms of the R-hat / ESS formulas '
            'over the chain statistics'
-           '; accessor wiring (name -> statistic of its own column, all exits return), save() dispatch per extension with the file opened from fname, FFT autocovariance form and lag progress of the ESS loop',
+           '; accessor wiring (name -> statistic of its own column, all exits return), save() dispatch per extension with the file opened from fname, FFT autocovariance form and lag progress of the ESS loop'
+           '; absolute-tolerance sweep; dtype-inheritance sweep',
     'C17': 'static mask-index uniformity, opposite polarity of regressor operands, comparison '
            'roles of the partition'
-           '; fit/adjust wiring (fields stored on every path, fit(X, y) argument order, accessors, returned sample) with argument binding by parameter name',
+           '; fit/adjust wiring (fields stored on every path, fit(X, y) argument order, accessors, returned sample) with argument binding by parameter name'
+           '; absolute-tolerance sweep; dtype-inheritance sweep',
     'C18': 'static uniform-index analysis of the batch loop, copy-before-mutate, call ordering '
            'in run_external'
-           '; constant detection / batch length / dtype-dependent result assembly of run_vectorized with feasibility-filtered CFG paths, data flow of the external command pipeline, exact default-parser condition',
+           '; constant detection / batch length / dtype-dependent result assembly of run_vectorized with feasibility-filtered CFG paths, data flow of the external command pipeline, exact default-parser condition'
+           '; dtype-inheritance sweep',
     'C19': 'static frame typestate (box/world), polarity of centre shifts, sibling agreement of '
            'serial and parallel weight code, CFG must-pass rule for the line-search retract, '
            'library-fact rule for scalar conversions'
-           '; verdict structure of contains(), bounded advance phase of the line search, lock-step of the region and distance-function lists (exhaustive and exclusive flag conditions), surrogate_used derived from the flags that choose the distance functions',
+           '; verdict structure of contains(), bounded advance phase of the line search, lock-step of the region and distance-function lists (exhaustive and exclusive flag conditions), surrogate_used derived from the flags that choose the distance functions'
+           '; argument binding of threshold and search parameters from the entry point to the line search; vectorised form of the membership test recognised, inverse rotation on every alternative of the value term; dtype-inheritance sweep',
     'C20': 'static space typestate (theta / theta-tilde) at transform call sites, case-table '
            'agreement of the three helpers, polarity of the MH log-ratio, exact rational-function '
            '/ log-linear normal forms of the transform, Jacobian and unbiased-estimator formulas '
            'read off the syntax tree (coefficient comparison, no evaluation, no solver), scale '
            'typestate with a feasibility-filtered CFG path rule'
-           '; frozen guard table for the branches of the BSL step and the standard likelihood',
+           '; frozen guard table for the branches of the BSL step and the standard likelihood'
+           '; sibling cross-check of the rejection sites (chain state carried forward as a whole); dtype-inheritance sweep',
 }
 
 
